@@ -427,6 +427,148 @@ func.func public @streamer_add(%A: memref<?xi64>, %B: memref<?xi64>, %D: memref<
 """
 
 
+def run_real_pass(case):
+    """Several operations of one MODULE lowered by the real pass `convert-linalg-to-accfg` (ConvertSnaxStreamToAccelerator
+    + ConnectStatesThroughControlFlow): every region in its own function (pointer sources decide whether it sits in an
+    scf.for), regions without block-argument pointers appended to the first function ("several regions in one function").
+    The accelerators are registered in an AccContext the way snaxc's config flow does (`lambda: instance`, case["objects"]
+    == "pass-instance") or the way snax-opt does (a factory building a fresh object per lookup, "pass-factory").
+    -> {"steps": [per-operation output, same shape as run_real]} | {"pass_raised": cls}"""
+    from types import SimpleNamespace
+    from snaxc.accelerators import AccContext
+    from snaxc.dialects import accfg
+    from snaxc.transforms.convert_linalg_to_accfg import ConvertLinalgToAccPass
+    from xdsl.dialects import builtin, func, scf
+    from xdsl.ir import Region
+
+    def make(st):
+        k = st["kind"]
+        if k == "alu":
+            from snaxc.accelerators.snax_alu import SNAXAluAccelerator
+            return SNAXAluAccelerator(mk_cfg(st["cfg"]))
+        if k == "gemmx":
+            from snaxc.accelerators.snax_gemmx import SNAXGEMMXAccelerator
+            return SNAXGEMMXAccelerator(mk_cfg(st["cfg"]), st["m"], st["n"], st["k"])
+        if k == "xdma":
+            from snaxc.accelerators.snax_xdma import SNAXXDMAAccelerator
+            return SNAXXDMAAccelerator(mk_cfg(st["cfg"], xdma=True))
+        raise ValueError(k)
+
+    steps = case["steps"]
+    first_of_kind = {}
+    for st in steps:
+        first_of_kind.setdefault(st["kind"], st)
+    ctx = AccContext(allow_unregistered=True)
+    insts = {}
+    for k, st in first_of_kind.items():
+        inst = make(st)
+        insts[k] = inst
+        if case["objects"] == "pass-instance":
+            ctx.register_accelerator(inst.name, lambda inst=inst: inst)
+        else:
+            ctx.register_accelerator(inst.name, lambda st=st: make(st))
+    funcs, info = [], []
+    shared_block = None
+    for i, st in enumerate(steps):
+        acc = insts[st["kind"]]
+        op, opnds, first_generic, zps = build_region(st, acc.name)
+        keep, ops, inner = opnds
+        fblock = keep[0]
+        rec = SimpleNamespace(operands=list(op.operands), inputs=list(first_generic.inputs) if first_generic is not None else [],
+                              op=op, acc=acc, keep=keep)
+        info.append(rec)
+        if len(keep) > 1:                                   # the region sits in an scf.for: close its body
+            inner.add_op(scf.YieldOp(*inner.args[1:]))
+        movable = not fblock.args and len(keep) == 1
+        if shared_block is not None and movable and st.get("share", True):
+            for o in list(fblock.ops):
+                o.detach()
+                shared_block.add_op(o)
+            rec.func = shared_idx
+            continue
+        if shared_block is None and movable:
+            shared_block, shared_idx = fblock, len(funcs)
+        rec.func = len(funcs)
+        funcs.append(fblock)
+    fops = []
+    for j, b in enumerate(funcs):
+        fops.append(func.FuncOp(f"f{j}", ([a.type for a in b.args], []), Region(b)))
+    for b in funcs:
+        b.add_op(func.ReturnOp())
+    mod = builtin.ModuleOp([*(a.generate_acc_op() for a in insts.values()), *fops])
+    for rec in info:
+        rec.accepts = _verifies(rec.op)
+    try:
+        ConvertLinalgToAccPass().apply(ctx, mod)
+    except (IndexError, AssertionError, ValueError, ZeroDivisionError, NotImplementedError) as e:
+        return {"pass_raised": type(e).__name__}
+    # the i-th non-empty setup of a function belongs to the i-th region placed in it
+    per_func = {}
+    for f in fops:
+        setups = [o for o in f.walk() if isinstance(o, accfg.SetupOp) and len(o.param_names.data)]
+        launches = [o for o in f.walk() if isinstance(o, accfg.LaunchOp)]
+        per_func[fops.index(f)] = (setups, launches)
+    # regions of the shared function were appended in step order; others are alone in their function
+    cursor = {}
+    outs = []
+    for st, rec in zip(steps, info):
+        setups, launches = per_func[rec.func]
+        c = cursor.get(rec.func, 0)
+        cursor[rec.func] = c + 1
+        out = {"fields": list(rec.acc.fields), "accepts": rec.accepts}
+        if c >= len(setups) or c >= len(launches):
+            out["raised"] = "MissingSetup"
+            outs.append(out)
+            continue
+        setup, launch = setups[c], launches[c]
+        out["vals"] = [tree_of(v, rec, rec) for v in setup.values]
+        out["names"] = [p.data for p in setup.param_names]
+        out["launch"] = launch_of([launch])
+        if st["kind"] == "gemmx":
+            out["launch_attrs"] = launch_attrs_of([launch])
+        outs.append(out)
+    return {"steps": outs}
+
+
+def _verifies(op):
+    from xdsl.utils.exceptions import VerifyException
+    try:
+        op.verify_()
+        for pat in op.stride_patterns.data:
+            pat.verify()
+        return True
+    except VerifyException:
+        return False
+
+
+def run_real_foreign():
+    """unreached branches of the anchored functions: `convert_to_acc_ops` on an op the accelerator does not lower returns
+    no ops; `StreamingRegionOp.verify_` rejects a region whose accelerator op is not in the module"""
+    from snaxc.accelerators.snax_alu import SNAXAluAccelerator
+    from snaxc.accelerators.snax_gemmx import SNAXGEMMXAccelerator
+    from snaxc.accelerators.snax_hwpe_mult import SNAXHWPEMultAccelerator
+    from snaxc.accelerators.snax_xdma import SNAXXDMAAccelerator
+    from xdsl.dialects import arith, builtin, func
+    from xdsl.ir import Region
+    from xdsl.utils.exceptions import VerifyException
+    other = arith.ConstantOp.from_int_and_width(1, 32)
+    accs = {"alu": SNAXAluAccelerator(), "gemmx": SNAXGEMMXAccelerator(), "xdma": SNAXXDMAAccelerator(),
+            "hwpe": SNAXHWPEMultAccelerator()}
+    out = {"foreign": {k: len(list(a.convert_to_acc_ops(other))) for k, a in accs.items()}}
+    case = {"kind": "alu", "cfg": [dict(x) for x in ALU_DEFAULT],
+            "op": {"pats": [{"ub": [4], "ts": [32], "ss": [8]}] * 3, "zero": [False] * 3}}
+    op, opnds, _, _ = build_region(case, "snax_alu")
+    fblock = opnds[0][0]
+    mod = builtin.ModuleOp([func.FuncOp("f", ([], []), Region(fblock))])      # no accfg.accelerator op
+    opnds[0].append(mod)
+    try:
+        op.verify_()
+        out["rejected_without_accelerator_op"] = False
+    except VerifyException:
+        out["rejected_without_accelerator_op"] = True
+    return out
+
+
 def run_real(case, sess=None):
     """-> {"fields": [...], "vals": [...]} | {"fields": [...], "raised": cls}
 
@@ -434,6 +576,8 @@ def run_real(case, sess=None):
     so one object lowers every operation of a program; snax-opt builds a fresh object per lookup (sess=None)."""
     from snaxc.dialects import accfg
     kind = case["kind"]
+    if kind == "foreign":
+        return run_real_foreign()
     if sess is None:
         sess = {}
     if kind == "alu_linalg":
@@ -481,7 +625,12 @@ def run_real(case, sess=None):
         raise ValueError(kind)
     sess["acc"] = acc
     out = {"fields": list(acc.fields)}
-    op, opnds, first_generic, zps = build_region(case, acc.name)
+    from xdsl.utils.exceptions import VerifyException
+    try:
+        op, opnds, first_generic, zps = build_region(case, acc.name)
+    except VerifyException:
+        # `StridePattern.verify`: number of upper bounds != number of temporal strides — the attribute cannot be built
+        return {"raised": "VerifyException"}
     out["accepts"] = region_verifies(acc, op, opnds)
     try:
         ops = acc.convert_to_acc_ops(op)
@@ -1037,6 +1186,31 @@ def gen_session(rng, kind):
     return {"kind": "seq", "steps": steps, "objects": "fresh" if rng.random() < 0.25 else "one"}
 
 
+def gen_module(rng):
+    """a module with 2..5 streaming regions of up to three accelerators (alu, gemmx, xdma: one configuration each), lowered by
+    the real pass"""
+    kinds = rng.sample(["alu", "gemmx", "xdma"], rng.randint(1, 3))
+    firsts = {k: {"alu": gen_alu, "gemmx": gen_gemmx, "xdma": gen_xdma}[k](rng) for k in kinds}
+    steps = []
+    for _ in range(rng.randint(2, 5)):
+        k = rng.choice(kinds)
+        f = firsts[k]
+        if k == "alu":
+            st = gen_alu(rng, cfg=f["cfg"])
+        elif k == "gemmx":
+            st = gen_gemmx(rng, cfg=f["cfg"], n=f["n"])
+            st["m"], st["k"] = f["m"], f["k"]
+        else:
+            st = gen_xdma(rng, cfg=f["cfg"])
+        st["share"] = rng.random() < 0.7
+        steps.append(st)
+    # the first step of a kind defines the accelerator: keep geometry consistent
+    for st in steps:
+        if st["kind"] == "gemmx":
+            st["m"], st["k"] = firsts["gemmx"]["m"], firsts["gemmx"]["k"]
+    return {"kind": "seq", "steps": steps, "objects": rng.choice(["pass-instance", "pass-factory"])}
+
+
 def json_copy(x):
     import json
     return json.loads(json.dumps(x))
@@ -1150,6 +1324,12 @@ class C08(Prop):
     def cases(self, rng, tier):
         n = 900 if tier == "quick" else 8000
         yield {"kind": "hwpe"}
+        yield {"kind": "foreign"}
+        for kind in ("alu", "xdma"):            # `StridePattern.verify`: more / fewer temporal strides than upper bounds
+            for dub, dts in (([4, 2], [32]), ([4], [32, 64])):
+                c = gen_alu(rng) if kind == "alu" else gen_xdma(rng)
+                c["op"]["pats"][0] = {"ub": dub, "ts": dts, "ss": c["op"]["pats"][0]["ss"]}
+                yield c
         yield {"kind": "alu_linalg", "cfg": [dict(x) for x in ALU_DEFAULT]}
         # 17 fields by coincidence (8 + 7 + 2): same count as the table, different names
         yield {"kind": "alu_linalg", "cfg": [{"t": ["n", "n"], "s": [4, 2], "o": []}, {"t": ["n", "n"], "s": [4], "o": []}]}
@@ -1162,6 +1342,12 @@ class C08(Prop):
         for i in range(n // 6):
             yield gen_phs(rng, tier)
         yield from sessions_small(rng)
+        for c in sessions_small(rng):
+            if c["objects"] == "one" and all(st["kind"] != "alu_linalg" for st in c["steps"]):
+                yield dict(json_copy(c), objects="pass-instance")
+                yield dict(json_copy(c), objects="pass-factory")
+        for i in range(n // 10):
+            yield gen_module(rng)
         for i in range(n // 6):
             yield gen_session(rng, ("alu", "gemmx", "xdma")[i % 3])
         if tier != "thorough":
@@ -1184,6 +1370,8 @@ class C08(Prop):
 
     # -- the two sides ------------------------------------------------------------------------
     def impl(self, case):
+        if case["kind"] == "seq" and str(case.get("objects", "")).startswith("pass-"):
+            return run_real_pass(case)
         if case["kind"] == "seq":
             sess = {}
             outs = []
@@ -1208,19 +1396,27 @@ class C08(Prop):
     def model(self, case, answers):
         if case["kind"] == "seq":
             # the model is a function of (configuration, operation): no state to carry from one operation to the next
-            return {"steps": [self.model1(st, [a]) for st, a in zip(case["steps"], answers)]}
+            outs = [self.model1(st, [a]) for st, a in zip(case["steps"], answers)]
+            if str(case.get("objects", "")).startswith("pass-") and any("raised" in o for o in outs):
+                # the pass aborts at the first region whose lowering raises (walk order = step order per function)
+                return {"pass_raised": next(o["raised"] for o in outs if "raised" in o)}
+            return {"steps": outs}
         return self.model1(case, answers)
 
     def oracle(self, case, impl_out):
         if case["kind"] != "seq":
             return self.oracle1(case, impl_out)
+        if "pass_raised" in impl_out:
+            return []           # loud: no configuration is emitted for the module
         if "steps" not in impl_out:
             return [{"what": f"the session raised {impl_out.get('raised')}: {impl_out.get('msg')}", "finding": None}]
         out = []
         n = len(case["steps"])
         for i, (st, o) in enumerate(zip(case["steps"], impl_out["steps"])):
             for v in self.oracle1(st, o):
-                how = "a fresh accelerator object per operation" if case.get("objects") == "fresh" else "ONE accelerator object"
+                how = {"fresh": "a fresh accelerator object per operation", "pass-instance": "the pass convert-linalg-to-accfg "
+                       "(accelerators registered as instances)", "pass-factory": "the pass convert-linalg-to-accfg (accelerators "
+                       "registered as factories)"}.get(case.get("objects"), "ONE accelerator object")
                 out.append(dict(v, what=f"operation {i + 1} of {n} lowered by {how}: {v['what']}"))
         return out
 
@@ -1247,6 +1443,8 @@ class C08(Prop):
 
     def requests1(self, case):
         k = case["kind"]
+        if k == "foreign":
+            return []
         if k == "hwpe":
             return [{"fn": "c08.hwpe", "args": {}}]
         if k == "alu":
@@ -1272,7 +1470,13 @@ class C08(Prop):
         return []
 
     def model1(self, case, answers):
+        if case["kind"] == "foreign":
+            # not a Lean model: the documented contract of `convert_to_acc_ops` for an op the accelerator does not lower, and
+            # of the region verifier for a module without the accelerator's op
+            return {"foreign": {k: 0 for k in ("alu", "gemmx", "xdma", "hwpe")}, "rejected_without_accelerator_op": True}
         a = answers[0]
+        if "err" in a and "ub/ts lengths differ" in str(a["err"]):
+            return {"raised": "VerifyException"}       # the driver's wire-format check mirrors `StridePattern.verify`
         if "err" in a:
             return {"model_error": a["err"]}
         out = a["ok"]
@@ -1294,6 +1498,13 @@ class C08(Prop):
     # -- the property on the real output --------------------------------------------------------
     def oracle1(self, case, impl_out):
         out = []
+        if case["kind"] == "foreign":
+            if any(impl_out.get("foreign", {}).values()) or not impl_out.get("rejected_without_accelerator_op"):
+                return [{"what": f"an op the accelerator does not lower produced ops, or a region without accelerator op was "
+                                 f"accepted: {impl_out}", "finding": None}]
+            return []
+        if impl_out.get("raised") == "VerifyException":
+            return []       # the stride pattern attribute cannot even be built
         if impl_out.get("invalid_input"):
             return []
         if "raised" in impl_out and "fields" not in impl_out:
@@ -1427,6 +1638,8 @@ class C08(Prop):
         return res
 
     def nontrivial1(self, case, impl_out):
+        if case["kind"] == "foreign":
+            return True
         if "vals" not in impl_out:
             return False
         if case["kind"] in ("hwpe", "alu_linalg"):
@@ -1455,7 +1668,7 @@ class C08(Prop):
         return k
 
     def shrink1(self, case):
-        if case["kind"] in ("hwpe", "alu_linalg"):
+        if case["kind"] in ("hwpe", "alu_linalg", "foreign"):
             return
         if case["kind"] == "phs":
             # the configuration is tied to the template, the kernel to the history: only the history shrinks
